@@ -143,8 +143,32 @@ def check_cfg(arg):
     return fails, 1
 
 
+def check_member_kinds(arg):
+    """group members the IOS command reference allows besides hosts and subnets: a nested group (group-object), a range"""
+    import cisco_acl
+    kind = arg
+    body = {"nested-group-object": ["group-object G1", "host 10.9.9.9"], "range-member": ["range 10.0.0.1 10.0.0.5", "host 10.9.9.9"]}[kind]
+    cfg = "\n".join(["object-group network G1", " host 10.0.0.1", "object-group network GX"] + [" " + b for b in body] +
+                    ["ip access-list extended A", " permit ip object-group GX any", " permit ip host 1.1.1.1 any"]) + "\n"
+    want = {"nested-group-object": ["10.0.0.1/32", "10.9.9.9/32"], "range-member": ["10.0.0.1/32", "10.0.0.2/31", "10.0.0.4/31", "10.9.9.9/32"]}[kind]
+    try:
+        got = cisco_acl.acls(cfg, platform="ios")
+        members = sorted(str(n) for m in got[0].items[0].srcaddr.items for n in m.ipnets())
+        if members != want:
+            return [dict(key=f"bounded/acls:members:{kind}", what=f"members of GX ({body}) are reported as {members}, expected {want}", inputs=dict(config=cfg))], 1
+    except Exception as ex:
+        return [dict(key=f"bounded/acls:error:{kind}", what=f"a configuration whose address group has a {kind.replace('-', ' ')} makes acls() fail for the whole configuration: "
+                                                            f"{type(ex).__name__}: {ex}", inputs=dict(config=cfg),
+                     cmd=("import sys; sys.path.insert(0, 'props'); import C07\n"
+                          f"fails, _ = C07.check_member_kinds({arg!r})\nprint([f['what'] for f in fails]); sys.exit(1 if fails else 0)\n"))], 1
+    return [], 1
+
+
 def main(chk):
     t0 = time.time()
+    for fails, _ in pmap(check_member_kinds, ["nested-group-object", "range-member"]):
+        for f in fails:
+            chk.finding(f["key"], f["what"], inputs=f["inputs"], cmd=f.get("cmd"), key=f["key"])
     cases = []
     for platform in ("ios", "nxos"):
         names = list(ACL_BODIES[platform])
